@@ -194,4 +194,39 @@ Proof.
     assert (Hhmo : holders mo = holders m) by (destruct m; reflexivity).
     split.
     + eapply ginv_geq; [apply (install_h s' _ k mo m' P1 Hm'); gs; auto|].
-* intros r0. rewrite Hhm', Hhmo, Hhol, !occ_app. specialize (P3 r0). rewrite <- !Nat.add_assoc. rewrite P3.  Show. 
+      * intros r0. rewrite Hhm', Hhmo, Hhol, !occ_app. specialize (P3 r0). rewrite <- !Nat.add_assoc, P3. reflexivity.
+      * intros r0 Hi. destruct (Hpre1 r0 Hi) as [X1 [X2 [l0 [X3 [X4 X5]]]]]. rewrite Hhmo. repeat split; auto.
+        destruct Hi as [<-|[]]. exists l1. repeat split; try exact P6; congruence.
+      * intros c0 Hc0. assert (Hc1 : c0 = c) by (destruct m; cbn in *; congruence). subst c0.
+        assert (Hcr : c <> r).
+        { intros ->. apply occ_notin in Hh. apply Hh. unfold holders, cur_list. rewrite Ec. simpl. auto. }
+        assert (Hst : aget (store s') c <> None).
+        { apply (mo_refs _ _ _ _ (gi_mgr _ _ P1 k mo Hm')). unfold phk. gs. rewrite <- Hk, N.eqb_refl. rewrite Hhmo, occ_app.
+          pose proof (proj1 (occ_nodup _) B4 c) as N0. rewrite Hhol, occ_app in N0.
+          assert (Hc1 : occ c (cur_list m) = 1%nat) by (unfold cur_list; rewrite Ec; simpl; rewrite N.eqb_refl; reflexivity).
+          specialize (P3 c). rewrite occ_single in P3. destruct (r =? c) eqn:E; [apply N.eqb_eq in E; congruence|].
+          rewrite Hhol, occ_app, Hc1.
+          assert (occ c ph' = O) by (rewrite Hc1 in N0; destruct (occ c (hq_items q)); [destruct (occ c ph'); [reflexivity|rewrite Nat.add_0_r in P3; rewrite <- plus_n_Sm in P3; discriminate]|exfalso; clear - N0; inversion N0 as [|? N1]; inversion N1]).
+          rewrite H. apply Nat.lt_lt_add_r. apply Nat.lt_lt_add_r. apply Nat.lt_0_succ. }
+        rewrite (qframe_locked s1 s' c P2 Hst). unfold s1. rewrite getl_setl.
+        destruct (r =? c) eqn:E; [apply N.eqb_eq in E; subst; exfalso; apply occ_notin in Hh; apply Hh; unfold holders, cur_list; rewrite Ec; simpl; auto|].
+        apply B7; auto.
+      * intros Hc0. destruct m; cbn in *; congruence.
+      * intros q0 Hq0. assert (q0 = q') by (destruct mo; cbn in Hq0; congruence). subst q0. exact P4.
+      * intros q0 Hq0. assert (q0 = q') by (destruct mo; cbn in Hq0; congruence). subst q0. exact P5.
+      * match goal with |- _ = _ <| g_dl := ?e |> => replace e with (g_dl g + 1)%Z; [destruct g; gs; subst; reflexivity|] end.
+        gs. simpl. rewrite (getl_some _ _ _ P6), F3. lia.
+    + constructor.
+      * exists l1. repeat split; try congruence. change (store (setm s' k m')) with (store s'). exact P6.
+      * eapply lframe_trans; [apply qframe_lframe; exact P2|].
+        pose proof (lframe_updm_lists s' k (fun m => m <| m_locks := Some q' |>)) as LF. rewrite (updm_some _ _ _ _ Hm') in LF.
+        apply LF. intros m0. destruct m0; cbn. auto.
+  - (* becomes the current lock *)
+    rewrite (updm_some _ _ _ _ Hm1).
+    set (m' := m <| m_cur := Some r |>).
+    assert (Hhq : m_hq m = []) by auto.
+    assert (Hhm : holders m = []) by (unfold holders, cur_list; rewrite Ec, Hhq; reflexivity).
+    assert (Hhm' : holders m' = [r]) by (unfold holders, cur_list, m', m_hq in *; destruct m; cbn in *; rewrite Hhq; reflexivity).
+    split.
+    + eapply ginv_geq; [apply (install_h s1 _ k m m' G1 Hm1); gs; auto|].
+ Show. 
